@@ -64,7 +64,7 @@ type DevDesc struct {
 //   map   : z80.MapMemory (default 0xC7)
 func NewInner(d DevDesc) z80.Memory {
 	switch d.Kind {
-	case "hash":
+	case "hash", "volatile":
 		return &LazyMem{seed: d.Seed, ov: map[uint16]uint8{}}
 	case "const":
 		return &LazyMem{seed: -1, val: uint8(d.Val), ov: map[uint16]uint8{}}
@@ -91,6 +91,13 @@ func NewInner(d DevDesc) z80.Memory {
 
 // RecMem records every access made through it.
 type RecMem struct {
+	// Volatile: addresses >= VBase behave like read-sensitive registers (read-to-clear, FIFO head): the first bus read
+	// of an address returns what the inner memory holds, the k-th later one MemHash(VSeed, addr + 7*k); writes there
+	// do not stick.
+	Volatile bool
+	VSeed    int
+	VBase    int
+	seen     map[uint16]int
 	Acc   *int // shared bus-access counter (memory + ports)
 	Hook  func(n int) // called at every access with the running count
 	Inner z80.Memory
@@ -121,6 +128,13 @@ func (m *RecMem) Get(a uint16) uint8 {
 		m.OnGet(a)
 	}
 	m.Rd = append(m.Rd, a)
+	if m.Volatile && int(a) >= m.VBase {
+		k := m.seen[a]
+		m.seen[a] = k + 1
+		if k > 0 {
+			return MemHash(m.VSeed, int(a)+7*k)
+		}
+	}
 	return m.Inner.Get(a)
 }
 func (m *RecMem) Set(a uint16, v uint8) {
@@ -132,6 +146,9 @@ func (m *RecMem) Set(a uint16, v uint8) {
 		m.old[a] = m.Inner.Get(a)
 	}
 	m.Wr = append(m.Wr, [2]int{int(a), int(v)})
+	if m.Volatile && int(a) >= m.VBase {
+		return // the device does not store it
+	}
 	m.Inner.Set(a, v)
 }
 func (m *RecMem) Reset() { m.Rd = m.Rd[:0]; m.Wr = m.Wr[:0]; m.old = nil }
@@ -227,6 +244,9 @@ type Machine struct {
 	Acc          int
 	Con          []int // bytes that reached the tinycpm console writer
 	Warn         int   // warnings logged by the tinycpm IO
+	ConGen       int   // generation of the console writer configured now
+	Stale        int   // bytes that reached a console writer that is no longer the configured one
+	SetCon       func(kind string)
 	conMark      int
 	warnMark     int
 	Bare         bool
@@ -321,6 +341,9 @@ func NewMachine(is *InitSpec) *Machine {
 		inner.Set(uint16(c[0]), uint8(c[1]))
 	}
 	m.Mem = &RecMem{Inner: inner, Acc: &m.Acc}
+	if is.Dev.Kind == "volatile" {
+		m.Mem.Volatile, m.Mem.VSeed, m.Mem.VBase, m.Mem.seen = true, is.Dev.Seed, is.Dev.Val, map[uint16]int{}
+	}
 	cpu := &z80.CPU{Memory: m.Mem}
 	if is.Bare {
 		cpu.Memory = inner
